@@ -26,9 +26,21 @@ import props  # noqa: E402
 def run_rules(prop, F, tier):
     spec = props.PROPS[prop]
     results = []
+    cache = F.__dict__.setdefault("_rule_cache", {})      # several properties share rules: evaluate each once per fact set
     for modname, fn, kwargs in spec["rules"]:
         mod = importlib.import_module("rules." + modname)
-        r = getattr(mod, fn)(F, **kwargs)
+        ck = (modname, fn, repr(sorted(kwargs.items())))
+        if ck in cache:
+            if isinstance(cache[ck], BaseException):
+                raise cache[ck]
+            r = cache[ck]
+        else:
+            try:
+                r = getattr(mod, fn)(F, **kwargs)
+            except BaseException as e:
+                cache[ck] = e
+                raise
+            cache[ck] = r
         if isinstance(r, list):
             results.extend(r)
         else:
